@@ -15,6 +15,10 @@ pub struct GenTree {
     pub dirs: BTreeSet<String>,
     /// file path -> content
     pub files: BTreeMap<String, Vec<u8>>,
+    /// files whose path is not expressible as an id (double extension, a dotted directory
+    /// name, a hidden file): present in every materialised form, absent from the ground truth;
+    /// the valid entries next to them must be unaffected
+    pub extras: BTreeMap<String, Vec<u8>>,
     pub classes: BTreeSet<&'static str>,
 }
 
@@ -24,6 +28,9 @@ pub struct Truth {
     pub files: BTreeMap<(String, String), Vec<u8>>,
     /// directory ids, including the root ""
     pub dirs: BTreeSet<String>,
+    /// the tree also holds unrepresentable names: listings may contain entries derived from
+    /// them (unspecified), everything in the truth must still be there exactly once
+    pub lenient: bool,
 }
 
 pub fn id_of(path: &str) -> String {
@@ -46,6 +53,7 @@ pub fn split_file(path: &str) -> (String, String) {
 impl GenTree {
     pub fn truth(&self, keep_empty_dirs: bool) -> Truth {
         let mut t = Truth::default();
+        t.lenient = !self.extras.is_empty();
         t.dirs.insert(String::new());
         for (p, c) in &self.files {
             t.files.insert(split_file(p), c.clone());
@@ -71,7 +79,7 @@ impl GenTree {
 
     pub fn describe(&self) -> Value {
         json!({"dirs": self.dirs, "files": self.files.iter().map(|(p, c)| format!("{p} ({} B)", c.len())).collect::<Vec<_>>(),
-               "classes": self.classes})
+               "unrepresentable_extras": self.extras.keys().collect::<Vec<_>>(), "classes": self.classes})
     }
 }
 
@@ -189,7 +197,7 @@ pub fn gen_tree(r: &mut Rng, index: usize) -> GenTree {
     // deliberate constructs, rotated so that every run sees all of them
     let base = if r.chance(1, 2) || t.dirs.is_empty() { String::new() } else { r.pick(&dirs).clone() };
     let j = |n: &str| if base.is_empty() { n.to_string() } else { format!("{base}/{n}") };
-    match index % 6 {
+    match index % 7 {
         0 => {
             // one stem, several extensions (and none)
             t.files.insert(j("multi.a"), b"A".to_vec());
@@ -227,6 +235,19 @@ pub fn gen_tree(r: &mut Rng, index: usize) -> GenTree {
             t.dirs.insert(j("hollow"));
             mark(&mut t, "empty-directory");
         }
+        6 => {
+            // names that cannot be expressed as ids, among valid ones (before and after them in
+            // every member order used)
+            t.extras.insert(j("pack.tar.gz"), b"Z".to_vec());
+            t.extras.insert(j(".hidden"), b"H".to_vec());
+            t.extras.insert(j("v1.2/inside.a"), b"V".to_vec());
+            t.files.insert(j("aaa-before.a"), b"B".to_vec());
+            t.files.insert(j("zzz-after.a"), b"A".to_vec());
+            t.dirs.insert(j("zsub"));
+            t.files.insert(j("zsub/after.a"), b"S".to_vec());
+            t.files.insert(j("zsub/after.txt"), b"T".to_vec());
+            mark(&mut t, "unrepresentable-names-among-valid-ones");
+        }
         _ => {
             // extension-less file next to a same-named-stem file with extension
             t.files.insert(j("plain"), b"P".to_vec());
@@ -257,7 +278,7 @@ pub fn write_to_disk(t: &GenTree, root: &Path) {
     for d in &t.dirs {
         std::fs::create_dir_all(root.join(d)).unwrap();
     }
-    for (p, c) in &t.files {
+    for (p, c) in t.files.iter().chain(&t.extras) {
         let path = root.join(p);
         if let Some(parent) = path.parent() {
             std::fs::create_dir_all(parent).unwrap();
@@ -276,9 +297,12 @@ pub struct Form {
 }
 
 fn members(t: &GenTree, order: usize, with_dirs: bool, r: &mut Rng) -> Vec<(String, bool)> {
-    let mut m: Vec<(String, bool)> = t.files.keys().map(|f| (f.clone(), false)).collect();
+    let mut m: Vec<(String, bool)> = t.files.keys().chain(t.extras.keys()).map(|f| (f.clone(), false)).collect();
     if with_dirs {
         m.extend(t.dirs.iter().map(|d| (d.clone(), true)));
+        // the directories of the unrepresentable files have members too
+        let extra_dirs: BTreeSet<String> = t.extras.keys().filter_map(|f| f.rfind('/').map(|i| f[..i].to_string())).filter(|d| !t.dirs.contains(d)).collect();
+        m.extend(extra_dirs.into_iter().map(|d| (d, true)));
     }
     match order {
         0 => m.sort(),
@@ -300,7 +324,7 @@ pub fn tar_bytes(t: &GenTree, order: usize, with_dirs: bool, prefix: &str, r: &m
             h.set_cksum();
             b.append_data(&mut h, &name, std::io::empty()).unwrap();
         } else {
-            let c = &t.files[&p];
+            let c = t.files.get(&p).or_else(|| t.extras.get(&p)).expect("member content");
             h.set_entry_type(tar::EntryType::Regular);
             h.set_size(c.len() as u64);
             h.set_mode(0o644);
@@ -320,7 +344,7 @@ pub fn zip_bytes(t: &GenTree, order: usize, with_dirs: bool, deflate: bool, r: &
             z.add_directory(p, opts).unwrap();
         } else {
             z.start_file(p.clone(), opts).unwrap();
-            z.write_all(&t.files[&p]).unwrap();
+            z.write_all(t.files.get(&p).or_else(|| t.extras.get(&p)).expect("member content")).unwrap();
         }
     }
     z.finish().unwrap().into_inner()
